@@ -102,6 +102,11 @@ def scen(w, template="moves,moves", R=1, kinds="rd"):
 
 SCENARIOS = {}
 
+
+def scen_ind(w, start="outside", kinds="rd"):
+    from harness import inductive
+    inductive.step(w, "C01", start, kinds)
+
 META = {
     "assumptions": [
         "floats modelled as reals; hypot by contract (polynomial)",
@@ -132,6 +137,14 @@ def plan(tier):
         add("k2-" + a, "%s,%s" % (a, a))
         add("k3-episode-" + a, "enter,%s,leave" % a, kinds="r" if tier == "quick" else "rd")
     add("k2-arcs", "arcs,arcs", kinds="rd")
+    from harness import inductive
+    for start in ("outside", "inside"):
+        SCENARIOS["ind-" + start] = scen_ind
+        out.append(Scenario("ind-" + start, scen_ind, params={"start": start, "kinds": "rd"},
+                            cover=["shape-" + s.tag for s in inductive.SHAPES] + ["ends-inside", "ends-outside"],
+                            bounds={"K": "1 step from an arbitrary invariant state (all history lengths)",
+                                    "alphabet": [s.tag for s in inductive.SHAPES]},
+                            excludable=inductive.EXCLUDABLE))
     if tier == "thorough":
         add("k3-episode-arcs", "arcs,arcs,leave", kinds="rd")
         for a in main:
